@@ -9,8 +9,15 @@ EXTENDS IntData, Json
 
 View == vals
 
+H(op, args, a, b) == [op |-> op, args |-> args, a |-> a, b |-> b]
+NoPrefix == <<>>
+\* values with shared history and spare capacity, all reachable through the exported API:
+\*  #1 {1,2}  #2 = #1.Insert(2) (nothing to insert)  #3 {3}  #4 {4}  #5 {2,3} built from duplicates  #6 map 1->1, 2->2
+SharedPrefix == << H("NewIntSet", <<1, 2>>, 0, 0), H("Insert", <<2>>, 1, 0), H("NewIntSet", <<3>>, 0, 0),
+                   H("NewIntSet", <<4>>, 0, 0), H("NewIntSet", <<2, 2, 3>>, 0, 0), H("NewIntMap", <<1, 1, 2, 2>>, 0, 0) >>
+
 ObsRec(val) == [t |-> val.t, o |-> Observe(val)]
 Export ==
-  Len(hist) = MaxOps =>
+  Len(hist) = Len(Prefix) + MaxOps =>
      PrintT(ToJson([h |-> hist, exp |-> [i \in 1..Len(vals) |-> ObsRec(vals[i])]]))
 =============================================================================
